@@ -130,7 +130,9 @@ func genHist(r *gen.R, o qOpts) *qHist {
 		} else if o.SmallTF {
 			tf = &qTFs[3+r.Intn(len(qTFs)-3)]
 		} else {
-			tf = &qTFs[r.Intn(len(qTFs))]
+			// 1Sec and 10Sec year files have 31.5M / 3.2M slots: a scan over a whole year costs ~1 s, so they get
+			// half the weight of the other timeframes (they are the same code path, only slower to scan)
+			tf = &qTFs[r.PickI(0, 1, 2, 2, 3, 3, 3, 4, 4, 5, 5, 6, 6, 7, 7, 8, 8, 9, 9, 9)]
 		}
 	}
 	h.TF, h.D = tf.Name, tf.D
@@ -674,5 +676,11 @@ func lastYearTrigger(all *ms.Table, d time.Duration, s, e int64, n int) bool {
 	}
 	return false
 }
+
+// costly: scanning a whole year of this bucket is expensive (>= 1M slots per year); monitors bound the
+// number of ranges longer than wideSpan they issue against such a bucket.
+func (h *qHist) costly() bool { return h.D <= 30*time.Second }
+
+const wideSpan = int64(40 * 86400e9)
 
 func typeName(v interface{}) string { return strings.TrimPrefix(reflect.TypeOf(v).String(), "[]") }
